@@ -7,6 +7,7 @@ package main
 
 import (
 	"fmt"
+	"strings"
 	"go/token"
 	"go/types"
 
@@ -338,11 +339,21 @@ func (fx *Fx) autoVariant(li *LoopInfo, pre, hv map[*ssa.Phi]Val, arrivals []*St
 					continue
 				}
 				for _, opnd := range []ssa.Value{b.X, b.Y} {
-					if in, ok := opnd.(ssa.Instruction); ok && li.Body[in.Block()] {
-						continue
-					}
 					var q *Term
-					if k, ok := opnd.(*ssa.Const); ok {
+					if in, ok := opnd.(ssa.Instruction); ok && li.Body[in.Block()] {
+						// computed in the loop: usable as a bound when its value (as of the first arrival) depends neither
+						// on a loop variable nor on memory, i.e. is the same in every iteration (e.g. len(buf)-16)
+						if in.Block() != li.Header || len(arrivals) == 0 {
+							continue
+						}
+						v, ok := arrivals[0].Top().Vals[opnd]
+						if !ok || len(v.L) != 1 || v.L[0].S.K != SBV || !loopInvariantTerm(v.L[0]) {
+							continue
+						}
+						q = w64(v.L[0], isSigned(opnd.Type()))
+					}
+					if q != nil {
+					} else if k, ok := opnd.(*ssa.Const); ok {
 						if k.Value == nil || !isInteger(k.Type()) {
 							continue
 						}
@@ -389,4 +400,29 @@ func (fx *Fx) autoVariant(li *LoopInfo, pre, hv map[*ssa.Phi]Val, arrivals []*St
 		}
 	}
 	return ""
+}
+
+// loopInvariantTerm: the term mentions no havocked loop variable and reads no memory.
+func loopInvariantTerm(t *Term) bool {
+	seen := map[*Term]bool{}
+	var rec func(t *Term) bool
+	rec = func(t *Term) bool {
+		if seen[t] {
+			return true
+		}
+		seen[t] = true
+		if t.Op == "sym" && (strings.HasPrefix(t.Name, "lv!") || strings.HasPrefix(t.Name, "H!") || strings.HasPrefix(t.Name, "hrow!") || strings.HasPrefix(t.Name, "hcell!")) {
+			return false
+		}
+		if t.Op == "select" || t.Op == "store" {
+			return false
+		}
+		for _, a := range t.Args {
+			if !rec(a) {
+				return false
+			}
+		}
+		return true
+	}
+	return rec(t)
 }
